@@ -14,6 +14,7 @@ RULE = ('Positive equity curves of length 2-800 on business-day indexes (as date
         'NaN/inf); equity x 2^k must leave every number bit-identical, equity x c (c in 1e-3..1e3) within 1e-6. '
         'Non-trivial: a curve with >= 2 distinct drawdown episodes; distinct = (class, length, first values, start).'
         ' Widened: whole-dollar (int64) curves; annualisation factor periods in {252, 52, 12, 1638}; a benchmark curve always supplied and every block of the JSON export checked against its own curve.')
+RULE += ' The chart-formatted copies (monthly_agg_returns_hc, yearly_agg_returns_hc) must carry the same periods and values x 100. One case in forty renders the tearsheet (Agg) with a benchmark that starts 15 business days before the strategy and reads the statistics panel back: total return, CAGR, Sharpe, max drawdown and duration printed for each curve must be those of that curve.'
 ASSUMPTIONS = [
     'Sharpe/Sortino are not compared when the deviation is below 1e-6 of the largest return (quotient of rounding noise)',
     'drawdown duration under arbitrary scaling is compared only on curves without near-ties',
